@@ -27,13 +27,13 @@ META = {
 WINDOW = {'slope', 'aspect', 'curvature', 'hillshade', 'mean0', 'mean1', 'apply', 'hotspots', 'convolution_2d'}
 DASK_OK = {'perlin', 'generate_terrain', 'slope', 'aspect', 'curvature', 'hillshade', 'mean1', 'apply', 'hotspots', 'convolution_2d', 'binary', 'reclassify', 'equal_interval', 'ndvi', 'evi', 'proximity'}
 FUNCS = ['slope', 'aspect', 'curvature', 'hillshade', 'mean0', 'mean1', 'apply', 'hotspots', 'convolution_2d', 'binary', 'reclassify', 'quantile', 'equal_interval',
-         'natural_breaks', 'ndvi', 'evi', 'savi', 'proximity', 'allocation', 'direction', 'regions', 'a_star_search', 'stats', 'crosstab', 'trim', 'crop', 'perlin']
+         'natural_breaks', 'ndvi', 'evi', 'savi', 'proximity', 'allocation', 'direction', 'regions', 'a_star_search', 'stats', 'crosstab', 'crosstab3d', 'trim', 'crop', 'perlin']
 GENERATORS = {'perlin', 'generate_terrain'}
 VIEW_OK = {'trim', 'crop'}           # documented: windows (views) of the input
-OWN_SHAPE = {'stats', 'crosstab', 'trim', 'crop', 'perlin', 'generate_terrain'}     # generators: the raster argument is a template, identity of coords is not claimed
-TWO_INPUT = {'ndvi', 'savi', 'stats', 'crosstab', 'crop'}
+OWN_SHAPE = {'stats', 'crosstab', 'crosstab3d', 'trim', 'crop', 'perlin', 'generate_terrain'}     # generators: the raster argument is a template, identity of coords is not claimed
+TWO_INPUT = {'ndvi', 'savi', 'stats', 'crosstab', 'crosstab3d', 'crop'}
 THREE_INPUT = {'evi'}
-FORKY = {'reclassify', 'ndvi', 'binary', 'quantile', 'natural_breaks', 'equal_interval', 'stats', 'crosstab', 'regions', 'a_star_search', 'proximity', 'allocation', 'direction', 'trim', 'crop', 'mean1', 'mean0'}
+FORKY = {'crosstab3d', 'reclassify', 'ndvi', 'binary', 'quantile', 'natural_breaks', 'equal_interval', 'stats', 'crosstab', 'regions', 'a_star_search', 'proximity', 'allocation', 'direction', 'trim', 'crop', 'mean1', 'mean0'}
 
 
 def jobs(tier, seed):
@@ -160,6 +160,8 @@ def _call(ctx, fn, aggs):
         return ctx.call('zonal:stats', a, aggs[1], None, ['mean', 'max', 'count'])
     if fn == 'crosstab':
         return ctx.call('zonal:crosstab', a, aggs[1])
+    if fn == 'crosstab3d':
+        return ctx.call('zonal:crosstab', a, aggs[1], None, None, 0, 'sum')
     if fn == 'trim':
         return ctx.call('zonal:trim', a, [3])
     if fn == 'crop':
@@ -186,7 +188,15 @@ def body(ctx, job):
     for i in range(ninp):
         # zonal functions: zones must be integer-like for crop / small alphabets
         idt = dt
-        agg, data = _mk(ctx, 'in%d' % i, shape, idt, lay, backend, job.get('chunks'), forky, nsym=1 if fn in ('crosstab', 'natural_breaks', 'stats') else 2)
+        agg, data = _mk(ctx, 'in%d' % i, shape, idt, lay, backend, job.get('chunks'), forky, nsym=1 if fn in ('crosstab', 'crosstab3d', 'natural_breaks', 'stats') else 2)
+        if fn == 'crosstab3d' and i == 1:
+            # values: a (layer, y, x) cube in one C-ordered buffer, category dimension first
+            h_, w_ = shape
+            flat = list(data.flat_values())
+            second = [v + 1 if not sc.is_sym(v) else v + 1 for v in flat]
+            data = SymArray.from_list(flat + second, (2, h_, w_), data.dtype, cast=True)
+            agg = symxr.DataArray(data, dims=('layer', 'y', 'x'), coords={'layer': symnp.asarray([10, 20]), 'y': agg.coords['y'].data, 'x': agg.coords['x'].data},
+                                  attrs=dict(agg.attrs), name='in1')
         inputs.append((agg, data))
     snaps = [_snapshot(a, d) for a, d in inputs]
     exc = ctx.raises(_call, ctx, fn, [a for a, _ in inputs])
